@@ -283,7 +283,15 @@ func (r *FileRestorer) updateImports() error {
 		}
 	}
 
+	// The packages are resolved in a determinate order, so that with several unresolvable packages
+	// the same one is reported every time.
+	packagesInUseOrdered := make([]string, 0, len(packagesInUse))
 	for path := range packagesInUse {
+		packagesInUseOrdered = append(packagesInUseOrdered, path)
+	}
+	sort.Strings(packagesInUseOrdered)
+
+	for _, path := range packagesInUseOrdered {
 		if _, ok := effectiveAlias[path]; ok {
 			// no need to resolve the path of a package that has an alias
 			continue
